@@ -211,6 +211,9 @@ def judge (args : List String) (out : String) : String :=
       else if hasAmbiguousPair c.rows then "holds:outside-domain-ambiguous-rows"
       else if c.rows.any (fun r => r.ps + r.pr ≥ 2^64 || r.bs + r.br ≥ 2^64) then "holds:outside-domain-overflow"
       else if out == "panic" then "violates:panic"
+      -- the statement is shared by all (partial and final) results of a query: post-processing one result
+      -- must leave its row limit as the user gave it
+      else if out == "err:statement-changed" then "violates:statement-limit-changed"
       else
         match parseOutput out with
         | none => "violates:unparsable-output"
